@@ -475,6 +475,35 @@ func checkSyncWindows(p *core.Prog, r *core.Report, ds *core.Describer, ruleA, r
 	}
 	r.Floor(ruleB+" subtractions in window functions", nSub, 4)
 
+	// ---- the jobs of a period do not depend on the subnet subscription: in scheduleSyncCommitteeMessages the call
+	// that subscribes to the subnets (whose failure ends the function) does not come before the per-slot scheduling ----
+	if sf := p.Func(ctrlRel, "Service", "scheduleSyncCommitteeMessages"); sf != nil {
+		var subs []ssa.Instruction
+		core.EachInstr(sf, func(in ssa.Instruction) {
+			if ci, ok := in.(ssa.CallInstruction); ok && ci.Common().IsInvoke() && core.MethodName(ci.Common()) == "Subscribe" {
+				subs = append(subs, in)
+			}
+		})
+		var starts []ssa.Instruction
+		core.EachInstr(sf, func(in ssa.Instruction) {
+			if _, isGo := in.(*ssa.Go); isGo {
+				starts = append(starts, in)
+			}
+			if ci, ok := in.(ssa.CallInstruction); ok && ci.Common().IsInvoke() && core.MethodName(ci.Common()) == "ScheduleJob" {
+				starts = append(starts, in)
+			}
+		})
+		for i, sub := range subs {
+			before := false
+			for _, st := range starts {
+				if (core.PathQuery{Fn: sf, From: sub, Target: func(x ssa.Instruction) bool { return x == st }}).Find() != nil {
+					before = true
+				}
+			}
+			r.Check(!before, ruleA, fmt.Sprintf("%s|subscription#%d|after-scheduling", core.FnKey(sf), i+1), p.Pos(sub.Pos()), "the subnet subscription is made after the period's jobs have been set up", "the subnet subscription is made before the per-slot jobs are set up, and the function returns when it fails: a beacon node that rejects the subscription (syncing, 5xx) leaves the whole period without message jobs")
+		}
+	}
+
 }
 
 func exprOrNone(e ast.Expr) string {
